@@ -51,13 +51,13 @@ PROBE = (
     "<i data-tal-content=\"'D'\">d</i>\n"
     '<!-- c ${1 + 1} -->\n'
     '<b tal:content="1 + 1">b</b>\n'
-    '<u tal:condition="False" tal:content="1 +">never</u>\n'
+    '<u tal:condition="reach" tal:content="1 +">never</u>\n'
     "<s>${foo | 'nofoo'}${bar | 'nobar'}</s>\n"
     '</html>')
 PROBE_NS = PROBE.replace("<p>some text</p>", '<p bar:baz="1">some text</p>')
 
 BASE = {"cls": "PageTemplate", "body": PROBE, "options": {"strict": False},
-        "kwargs": {"flag": True}}
+        "kwargs": {"flag": True, "reach": False}}
 
 # name -> change applied to a copy of BASE
 VARIANTS = {
@@ -82,6 +82,12 @@ VARIANTS = {
     "extra_builtins_foo": {"options": {"extra_builtins": {"foo": "F"}}},
     "extra_builtins_bar": {"options": {"extra_builtins": {"bar": "B"}}},
     "encoding": {"options": {"encoding": "latin-1"}},
+    # same cache entry, but this time the deferred invalid expression is
+    # reached (by another process than the one that compiled it)
+    "reach_invalid": {"kwargs": {"flag": True, "reach": True}},
+    # application subclasses with different class-level configuration
+    "subclass_a": {"cls": "SubA"},
+    "subclass_b": {"cls": "SubB"},
 }
 
 
@@ -167,6 +173,8 @@ def run_history(procs):
 def _pair_job(args):
     name, order, two_procs = args
     a, b = BASE, variant(name)
+    if name == "subclass_b":
+        a = variant("subclass_a")
     seq = [a, b] if order == 0 else [b, a]
     procs = [[seq[0]], [seq[1]]] if two_procs else [seq]
     try:
@@ -193,7 +201,7 @@ class Pairs(Stage):
         inert = [n for n in VARIANTS if same(reference(variant(n)), base_ref)
                  and n not in ("translate_only", "encoding",
                                "restricted_namespace_body",
-                               "boolean_attributes_empty")]
+                               "boolean_attributes_empty", "subclass_a")]
         jobs = [(n, o, t) for n in sorted(VARIANTS) for o in (0, 1)
                 for t in (False, True)]
         ctx = multiprocessing.get_context("fork")
